@@ -35,6 +35,12 @@ def main():
         rc, out = sh("/venv/bin/python %s" % demo, cwd=wt, env=env)
         res["demo_without_change_rc"] = rc
         rc, out = sh("git apply %s" % patch, cwd=wt)
+        if rc:
+            rc, out = sh("git apply --3way %s && git reset -q" % patch, cwd=wt)
+            if rc == 0:
+                res["patch_rebased"] = True
+                sh("git diff > %s" % os.path.join(d, "patch.rebased.diff"), cwd=wt)
+                patch = os.path.join(d, "patch.rebased.diff")
         res["patch_applies"] = (rc == 0)
         if rc:
             res["patch_error"] = out[-500:]
